@@ -65,6 +65,10 @@ def handle (op : String) (j : Json) : Option (Except String Json) :=
       let a ← getQ (← j.getObjVal? "a")
       let u ← getQ (← j.getObjVal? "b")
       pure (jout (inUnits liveCfg.thr a u))
+  | "c11.has_units" => some do
+      let a ← getQ (← j.getObjVal? "a")
+      let u ← getQ (← j.getObjVal? "b")
+      pure (jout (.bool (hasUnitsOf liveCfg.thr a u)))
   | _ => none
 
 end PGA.Drv.C11
